@@ -1,7 +1,10 @@
 import SupervisorModel.Model.Reread
 /-
-  Line protocol for C15:  case reread <old config tokens> -- <new config tokens>   (tokens as in ConfigIO)
+  Line protocol for C15:  case reread <old config tokens> -- <new config tokens>   (tokens as in ConfigIO, plus
+  C=<hex working directory at the time of that parse>)
   ops: diff | calls <hex group name>* | callsf <hex,hex|-> <hex group name>* | after <hex group name>*
+  A file that cannot be parsed answers `CANT_REREAD`, or `exc <class>` when the class that leaves process_config is not
+  one reloadConfig turns into that fault.
 -/
 namespace Sv.Reread
 open Sv.Config
@@ -19,34 +22,57 @@ def callS : Call → String
 
 def decodeArgs (l : List String) : Option (List String) := l.mapM strOfHex
 
+/-- the C= token (working directory of that parse; "" when absent) and the remaining tokens -/
+def takeCwd (toks : List String) : Option (String × List String) :=
+  let cs := toks.filter (strStartsWith "C=")
+  let rest := toks.filter fun t => !strStartsWith "C=" t
+  match cs with
+  | [] => some ("", rest)
+  | [c] => (strOfHex (String.ofList (c.toList.drop 2))).map fun d => (d, rest)
+  | _ => none
+
+/-- tokens ↦ outcome of process_config(do_usage=False) in the working directory they name -/
+def parseToks (toks : List String) : Option (Except String (List GConfig)) :=
+  match takeCwd toks with
+  | none => none
+  | some (cwd, rest) =>
+    match parseIni rest emptyIni with
+    | none => none
+    | some ini => some (parseAt cwd ini)
+
+def outcomeS : Outcome → String
+  | .fault .cantReread => "CANT_REREAD"
+  | .fault .badName => "BAD_NAME" | .fault .alreadyAdded => "ALREADY_ADDED" | .fault .stillRunning => "STILL_RUNNING"
+  | .escapes c => "exc " ++ c
+
 def runCase (cfg : List String) (ops : List String) : List String :=
   let parts := splitAt2 "--" [] cfg
-  match parseIni parts.1 emptyIni, parseIni parts.2 emptyIni with
-  | some oldIni, some newIni =>
-    match readConfig oldIni with
+  match parseToks parts.1, parseToks parts.2 with
+  | some oldParsed, some parsed =>
+    match oldParsed with
     | .error _ => ops.map fun _ => "bad-config"
-    | .ok old =>
+    | .ok oldGroups =>
       -- the daemon runs the old file: every group active, every process running
-      let st : State := { file := old.groups,
-                          active := old.groups.map fun g => { cfg := g, procs := g.procs.map fun p => { name := p.name, pid := 1, stopped := false } } }
-      let parsed := (readConfig newIni).map (·.groups)
+      let st : State := { file := oldGroups,
+                          active := oldGroups.map fun g => { cfg := g, procs := g.procs.map fun p => { name := p.name, pid := 1, stopped := false } } }
       let r := reloadConfig st (match parsed with | .ok g => .ok g | .error e => .error e)
+      let failed : String := match parsed with | .error e => outcomeS (rereadUnparsable st e).1 | .ok _ => "CANT_REREAD"
       ops.map fun op =>
         match words op with
         | ["diff"] =>
           match r.1 with
           | .ok (a, c, rm) => s!"added={namesS a} changed={namesS c} removed={namesS rm}"
-          | .error _ => "CANT_REREAD"
+          | .error _ => failed
         | "calls" :: args =>
           match decodeArgs args, r.1 with
           | some as, .ok (a, c, rm) => " ".intercalate ((updateCalls (validNames as) [] a c rm).map callS)
-          | some _, .error _ => "CANT_REREAD"
+          | some _, .error _ => failed
           | none, _ => "bad-op"
         | "callsf" :: fl :: args =>
           -- fl: comma-separated hex names of the groups whose stop reports a failure ("-" for none)
           match decodeArgs (if fl == "-" then [] else fl.splitOn ","), decodeArgs args, r.1 with
           | some fs, some as, .ok (a, c, rm) => " ".intercalate ((updateCalls (validNames as) fs a c rm).map callS)
-          | some _, some _, .error _ => "CANT_REREAD"
+          | some _, some _, .error _ => failed
           | _, _, _ => "bad-op"
         | "after" :: args =>
           match decodeArgs args, parsed with
@@ -81,10 +107,7 @@ def stateLine (ans : String) (s : State) : String :=
 def faultS : Fault → String
   | .cantReread => "CANT_REREAD" | .badName => "BAD_NAME" | .alreadyAdded => "ALREADY_ADDED" | .stillRunning => "STILL_RUNNING"
 
-def parseGroups (toks : List String) : Option (Except String (List GConfig)) :=
-  match parseIni toks emptyIni with
-  | none => none
-  | some ini => some ((readConfig ini).map (·.groups))
+def parseGroups (toks : List String) : Option (Except String (List GConfig)) := parseToks toks
 
 def histStep (s : State) (op : String) : String × State :=
   match words op with
@@ -93,13 +116,14 @@ def histStep (s : State) (op : String) : String × State :=
     | none => ("bad-op", s)
     | some parsed =>
       let r := reloadConfig s parsed
-      match r.1 with
-      | .ok (a, c, rm) => (stateLine s!"added={namesS a} changed={namesS c} removed={namesS rm}" r.2, r.2)
-      | .error f => (stateLine (faultS f) r.2, r.2)
+      match r.1, parsed with
+      | .ok (a, c, rm), _ => (stateLine s!"added={namesS a} changed={namesS c} removed={namesS rm}" r.2, r.2)
+      | .error _, .error e => (stateLine (outcomeS (rereadUnparsable s e).1) r.2, r.2)
+      | .error f, .ok _ => (stateLine (faultS f) r.2, r.2)
   | "update" :: al :: "T" :: toks =>
     match decodeArgs (if al == "-" then [] else al.splitOn ","), parseGroups toks with
     | some args, some (.ok new) => let s' := doUpdate s new args; (stateLine "ok" s', s')
-    | some _, some (.error _) => (stateLine "CANT_REREAD" s, s)
+    | some _, some (.error e) => (stateLine (outcomeS (rereadUnparsable s e).1) s, s)
     | _, _ => ("bad-op", s)
   | ["remove", h] =>
     match strOfHex h with
